@@ -101,14 +101,15 @@ func DropBefore() Outcome                      { return Outcome{Name: "DropBefor
 func Err(name string, m message.Error) Outcome { return Outcome{Name: name, Msg: m} }
 
 type Host struct {
-	Idx      int // 1-based
-	IP       string
-	c        *Cluster
-	mu       sync.Mutex
-	ln       net.Listener
-	conns    map[int]*Conn
-	prepared map[string]string // hex id → query text
-	stopped  bool
+	StartupFailures int32 // that many of the next STARTUPs are answered with an IS_BOOTSTRAPPING error
+	Idx             int   // 1-based
+	IP              string
+	c               *Cluster
+	mu              sync.Mutex
+	ln              net.Listener
+	conns           map[int]*Conn
+	prepared        map[string]string // hex id → query text
+	stopped         bool
 }
 
 type Conn struct {
@@ -735,6 +736,11 @@ func (x *Conn) handle(hdr *frame.Header, raw []byte) {
 	case *message.Options:
 		x.sendMsg(hdr.StreamId, &message.Supported{Options: map[string][]string{"CQL_VERSION": {"3.4.5"}, "COMPRESSION": {"snappy", "lz4"}}}, Outcome{Name: "Supported"}, "reply")
 	case *message.Startup:
+		if atomic.LoadInt32(&x.Host.StartupFailures) > 0 && atomic.AddInt32(&x.Host.StartupFailures, -1) >= 0 {
+			// a node that accepts connections while it is still starting up
+			x.sendMsg(hdr.StreamId, &message.IsBootstrapping{ErrorMessage: "Cannot accept requests yet: node is bootstrapping"}, Outcome{Name: "Startup:IsBootstrapping"}, "reply")
+			return
+		}
 		comp := ""
 		for k, v := range m.Options {
 			if strings.EqualFold(k, "COMPRESSION") {
